@@ -1152,158 +1152,415 @@ def _assigns_on_all_paths(mod, fn, attr, param, chain, _depth=0):
 WRAP = {"np.float64", "float", "int", "np.int32", "np.asarray"}
 
 
-def _ctor_entries(fn):
-    """name -> value expression of everything `new()` hands to the constructor: keywords of the constructing call
-    (`self.__class__(...)`, `type(self)(...)`, `cls(...)`) and the entries of the mapping it splats with `**`,
-    whether written as dict(k=v, ...), a {...} literal, or filled by `d["k"] = v` stores."""
-    entries, lines = {}, {}
+def _mro_after(prog, mod, leaf, ctx_cls):
+    """the classes that follow ctx_cls in the MRO of leaf (what super() in ctx_cls sees)"""
+    mro = prog.mro(mod, leaf)
+    for i, (m, c) in enumerate(mro):
+        if c is ctx_cls:
+            return mro[i + 1:]
+    return []
 
-    def add_mapping(v):
+
+def _super_target(call):
+    """method name if call is `super().m(...)` / `super(X, self).m(...)`"""
+    f = call.func
+    if isinstance(f, ast.Attribute) and isinstance(f.value, ast.Call) and pf.call_name(f.value) == "super":
+        return f.attr
+    return None
+
+
+def _ctor_entries(prog, mod, leaf, new_cls, fn):
+    """name -> value expression of everything `new()` hands to the constructor of the concrete class `leaf`: keywords of
+    the constructing call (`self.__class__(...)`, `type(self)(...)`, `cls(...)`) and the entries of the mapping it
+    splats with `**`, whether written as dict(k=v, ...), a {...} literal, filled by `d["k"] = v` stores / .update(),
+    or returned by a helper method (`self._get_init_kwargs()`, resolved through the MRO of `leaf`, `super()` chains
+    included)."""
+    entries, lines = {}, {}
+    what = "%s.new" % leaf.name
+
+    def put(k, val, line):
+        entries[k] = val
+        lines[k] = line
+
+    def add_mapping(cfn, ccls, v, depth):
+        if depth > 6:
+            raise core.AnalysisError("%s: helper chain deeper than 6" % what)
         if isinstance(v, ast.Dict):
             for k, val in zip(v.keys, v.values):
                 if k is None:
-                    add_mapping(val)
+                    add_mapping(cfn, ccls, val, depth)
                 elif isinstance(k, ast.Constant) and isinstance(k.value, str):
-                    entries[k.value] = val
-                    lines[k.value] = val.lineno
+                    put(k.value, val, val.lineno)
                 else:
-                    raise core.AnalysisError("NLDFAuxiliaryPlan.new: non-literal key %s" % pf.src(k))
+                    raise core.AnalysisError("%s: non-literal key %s" % (what, pf.src(k)))
         elif isinstance(v, ast.Call) and pf.call_name(v) == "dict":
-            for a in v.args:
-                add_mapping(a)
+            for a_ in v.args:
+                add_mapping(cfn, ccls, a_, depth)
             for k in v.keywords:
                 if k.arg is None:
-                    add_mapping(k.value)
+                    add_mapping(cfn, ccls, k.value, depth)
                 else:
-                    entries[k.arg] = k.value
-                    lines[k.arg] = k.value.lineno
+                    put(k.arg, k.value, k.value.lineno)
         elif isinstance(v, ast.Name):
-            add_name(v.id)
+            add_name(cfn, ccls, v.id, depth)
+        elif isinstance(v, ast.Call) and isinstance(v.func, ast.Attribute) and pf.is_self_attr(v.func) \
+                and not v.args and not v.keywords:
+            r = prog.find_method(mod, leaf, v.func.attr)
+            if r is None:
+                raise core.AnalysisError("%s: helper %s not found through the MRO" % (what, pf.src(v.func)))
+            add_helper(r[1], r[2], depth)
+        elif isinstance(v, ast.Call) and _super_target(v) and not v.args and not v.keywords:
+            for m_, c_ in _mro_after(prog, mod, leaf, ccls):
+                h = pf.methods(c_).get(_super_target(v))
+                if h is not None:
+                    add_helper(c_, h, depth)
+                    return
+            raise core.AnalysisError("%s: %s has no target in the MRO of %s" % (what, pf.src(v), leaf.name))
+        elif isinstance(v, ast.Call) and isinstance(v.func, ast.Attribute) and v.func.attr == "copy" and not v.args:
+            add_mapping(cfn, ccls, v.func.value, depth)
+        else:
+            raise core.AnalysisError("%s: constructor mapping `%s` is not a form the analysis reads" % (what, pf.src(v)[:80]))
 
-    def add_name(name):
-        if name in [a.arg for a in fn.args.args] or (fn.args.kwarg and fn.args.kwarg.arg == name):
+    def add_helper(hcls, h, depth):
+        rets = [n for n in pf.walk_no_nested(h) if isinstance(n, ast.Return) and n.value is not None]
+        if len(rets) != 1:
+            raise core.AnalysisError("%s: helper %s.%s has %d return statements" % (what, hcls.name, h.name, len(rets)))
+        add_mapping(h, hcls, rets[0].value, depth + 1)
+
+    def add_name(cfn, ccls, name, depth):
+        if name in [a_.arg for a_ in cfn.args.args] or (cfn.args.kwarg and cfn.args.kwarg.arg == name):
             return  # the caller's overrides
-        for n in pf.walk_no_nested(fn):
+        stmts = sorted((n for n in pf.walk_no_nested(cfn) if isinstance(n, (ast.Assign, ast.Expr))),
+                       key=lambda n: (n.lineno, n.col_offset))
+        for n in stmts:
             if isinstance(n, ast.Assign) and any(isinstance(t, ast.Name) and t.id == name for t in n.targets):
-                add_mapping(n.value)
-            if isinstance(n, ast.Assign) and any(isinstance(t, ast.Subscript) and isinstance(t.value, ast.Name)
-                                                 and t.value.id == name and isinstance(t.slice, ast.Constant)
-                                                 for t in n.targets):
+                add_mapping(cfn, ccls, n.value, depth)
+            elif isinstance(n, ast.Assign):
                 for t in n.targets:
-                    entries[t.slice.value] = n.value
-                    lines[t.slice.value] = n.lineno
+                    if isinstance(t, ast.Subscript) and isinstance(t.value, ast.Name) and t.value.id == name:
+                        if isinstance(t.slice, ast.Constant) and isinstance(t.slice.value, str):
+                            put(t.slice.value, n.value, n.lineno)
+                        else:
+                            raise core.AnalysisError("%s: non-literal key %s" % (what, pf.src(t)))
+            elif isinstance(n.value, ast.Call) and isinstance(n.value.func, ast.Attribute) \
+                    and isinstance(n.value.func.value, ast.Name) and n.value.func.value.id == name:
+                c = n.value
+                if c.func.attr == "update":
+                    for a_ in c.args:
+                        add_mapping(cfn, ccls, a_, depth)
+                    for k in c.keywords:
+                        if k.arg is None:
+                            add_mapping(cfn, ccls, k.value, depth)
+                        else:
+                            put(k.arg, k.value, k.value.lineno)
+                elif c.func.attr == "setdefault" and len(c.args) == 2 and isinstance(c.args[0], ast.Constant):
+                    if c.args[0].value not in entries:
+                        put(c.args[0].value, c.args[1], c.lineno)
+                elif c.func.attr == "pop" and c.args and isinstance(c.args[0], ast.Constant):
+                    entries.pop(c.args[0].value, None)
+                else:
+                    raise core.AnalysisError("%s: `%s` on the constructor mapping is not read" % (what, pf.src(c)[:60]))
 
     found = False
     for n in pf.walk_no_nested(fn):
         if isinstance(n, ast.Call) and pf.src(n.func) in ("self.__class__", "type(self)", "cls", "self.__class__.__call__"):
             found = True
+            if n.args:
+                raise core.AnalysisError("%s: positional constructor arguments are not read" % what)
             for k in n.keywords:
                 if k.arg is None:
-                    add_mapping(k.value)
+                    add_mapping(fn, new_cls, k.value, 0)
                 else:
-                    entries[k.arg] = k.value
-                    lines[k.arg] = k.value.lineno
+                    put(k.arg, k.value, k.value.lineno)
     if not found:
-        raise core.AnalysisError("NLDFAuxiliaryPlan.new: no `self.__class__(...)` / `type(self)(...)` call found")
+        raise core.AnalysisError("%s: no `self.__class__(...)` / `type(self)(...)` call found" % what)
     return entries, lines
 
 
-def _init_attr_assignments(prog, mod, cls, init, attr):
-    """[(statement, value expr with helper parameters renamed to the __init__ argument they receive)] for
-    self.attr in __init__ and in the self-methods __init__ calls directly (one level of helper extraction)"""
+_EXPR = "<expression>"
+
+
+def _init_attr_assignments(prog, mod, cls, init_cls, init, attr):
+    """[(statement, value expr, rename)] for self.attr in the __init__ of the concrete class `cls`, in the self-methods it
+    calls and in the super().__init__ chain; `rename` maps a name local to the scanned function to the parameter of
+    the OUTERMOST __init__ it carries (or to a marker when the argument is an expression / not passed)."""
     out = []
 
-    def scan(fn, rename):
+    def bind(call, h, rename, skip):
+        hp = [a_.arg for a_ in h.args.args[skip:]] + [a_.arg for a_ in h.args.kwonlyargs]
+        r2 = {q: _EXPR for q in hp}
+        for i, a_ in enumerate(call.args):
+            if i < len(hp):
+                r2[hp[i]] = rename.get(a_.id, a_.id) if isinstance(a_, ast.Name) else _EXPR
+        for k in call.keywords:
+            if k.arg in hp:
+                r2[k.arg] = rename.get(k.value.id, k.value.id) if isinstance(k.value, ast.Name) else _EXPR
+        return r2
+
+    def scan(fn, ccls, rename, depth):
         for n in pf.walk_no_nested(fn):
             if isinstance(n, ast.Assign) and any(pf.is_self_attr(t, attr) for t in n.targets):
                 out.append((n, n.value, rename))
             elif isinstance(n, ast.AugAssign) and pf.is_self_attr(n.target, attr):
                 out.append((n, None, rename))
-    scan(init, {})
-    for n in pf.walk_no_nested(init):
-        if isinstance(n, ast.Call) and isinstance(n.func, ast.Attribute) and pf.is_self_attr(n.func):
-            r = prog.find_method(mod, cls, n.func.attr)
-            if r is None:
-                continue
-            h = r[2]
-            hp = [a.arg for a in h.args.args[1:]]
-            rename = {}
-            for i, a in enumerate(n.args):
-                if i < len(hp) and isinstance(a, ast.Name):
-                    rename[hp[i]] = a.id
-            for k in n.keywords:
-                if k.arg in hp and isinstance(k.value, ast.Name):
-                    rename[k.arg] = k.value.id
-            scan(h, rename)
+            elif isinstance(n, ast.Call) and depth < 4:
+                if _super_target(n) == "__init__":
+                    for m_, c_ in _mro_after(prog, mod, cls, ccls):
+                        h = pf.methods(c_).get("__init__")
+                        if h is not None:
+                            scan(h, c_, bind(n, h, rename, 1), depth + 1)
+                            break
+                elif isinstance(n.func, ast.Attribute) and pf.is_self_attr(n.func) and fn.name == "__init__":
+                    r = prog.find_method(mod, cls, n.func.attr)
+                    if r is not None:
+                        scan(r[2], r[1], bind(n, r[2], rename, 1), depth + 1)
+    scan(init, init_cls, {a_.arg: a_.arg for a_ in init.args.args[1:] + init.args.kwonlyargs}, 0)
     return out
 
 
 def rule_ctor_roundtrip(chk):
+    """plan.new() must be a copy of plan: for EVERY concrete plan class, every parameter of its constructor is fed back by
+    new() (a parameter left out silently gets the default in the copy), and what is fed back is the raw argument
+    __init__ stored, not a transformed value."""
     prog = pf.Program(chk.tree, [PLANS])
     mod = prog.module(PLANS)
-    cls = mod.cls("NLDFAuxiliaryPlan")
-    r_new = prog.find_method(mod, cls, "new")
-    r_init = prog.find_method(mod, cls, "__init__")
-    if r_new is None or r_init is None:
-        raise core.AnalysisError("NLDFAuxiliaryPlan.new / __init__ not found (also not through the MRO)")
-    new, init = r_new[2], r_init[2]
-    params = [a.arg for a in init.args.args[1:]] + [a.arg for a in init.args.kwonlyargs]
-    entries, lines = _ctor_entries(new)
-    fed = {}
-    for k, v in entries.items():
-        if not pf.is_self_attr(v):
-            # a computed value (e.g. an explicit inverse of the constructor's transformation): not decided
-            chk.ok("ctor-roundtrip", "%s:NLDFAuxiliaryPlan.new %s=<computed>" % (PLANS, k), nontrivial=False)
-            chk.note("ctor-roundtrip", "%s:NLDFAuxiliaryPlan.new" % PLANS,
-                     "%s is fed back as the computed value `%s`; whether it inverts __init__ is not decided" % (
-                         k, pf.src(v)))
-            continue
-        fed[k] = v.attr
-    for p, attr in sorted(fed.items()):
-        inst = "%s:NLDFAuxiliaryPlan.new %s=self.%s" % (PLANS, p, attr)
-        if p not in params:
-            chk.violation("ctor-roundtrip", PLANS, "NLDFAuxiliaryPlan.new", "%s=self.%s" % (p, attr), lines[p],
-                          "new() passes %r, which is not a constructor parameter" % p, instance=inst)
-            continue
-        bad = []
-        assigns = _init_attr_assignments(prog, mod, cls, init, attr)
-        for n, v, rename in assigns:
-            if v is None:
-                bad.append(n)
+    base = mod.cls("NLDFAuxiliaryPlan")
+    classes = [(m, c) for m, c in prog.subclasses("NLDFAuxiliaryPlan") if m is mod]
+    if not any(c is base for _, c in classes):
+        classes.insert(0, (mod, base))
+    for _, cls in classes:
+        r_new = prog.find_method(mod, cls, "new")
+        r_init = prog.find_method(mod, cls, "__init__")
+        if r_new is None or r_init is None:
+            raise core.AnalysisError("%s.new / __init__ not found (also not through the MRO)" % cls.name)
+        new, init = r_new[2], r_init[2]
+        fq = "%s.new" % cls.name
+        if init.args.vararg or init.args.kwarg:
+            raise core.AnalysisError("%s.__init__ takes *args/**kwargs: its parameter list is not read" % cls.name)
+        params = [a_.arg for a_ in init.args.args[1:]] + [a_.arg for a_ in init.args.kwonlyargs]
+        entries, lines = _ctor_entries(prog, mod, cls, r_new[1], new)
+        fed = {}
+        for k, v in entries.items():
+            if not pf.is_self_attr(v):
+                # a computed value (e.g. an explicit inverse of the constructor's transformation): not decided
+                chk.ok("ctor-roundtrip", "%s:%s %s=<computed>" % (PLANS, fq, k), nontrivial=False)
+                chk.note("ctor-roundtrip", "%s:%s" % (PLANS, fq),
+                         "%s is fed back as the computed value `%s`; whether it inverts __init__ is not decided" % (
+                             k, pf.src(v)))
                 continue
-            while isinstance(v, ast.Call) and pf.call_name(v) in WRAP and len(v.args) == 1:
-                v = v.args[0]
-            if not (isinstance(v, ast.Name) and rename.get(v.id, v.id) == p):
-                bad.append(n)
-        if not assigns:
-            # a class-level default or an attribute set elsewhere: not decided rather than an error
-            chk.ok("ctor-roundtrip", inst + " (attribute not assigned in __init__: not decided)", nontrivial=False)
-            chk.note("ctor-roundtrip", "%s:NLDFAuxiliaryPlan.__init__" % PLANS,
-                     "self.%s, fed back by new() as %r, is not assigned in __init__ or its direct helpers" % (attr, p))
+            fed[k] = v.attr
+        for p in params:
+            inst = "%s:%s forwards constructor parameter %s" % (PLANS, fq, p)
+            if p in entries:
+                chk.ok("ctor-roundtrip", inst)
+            else:
+                chk.violation("ctor-roundtrip", PLANS, fq, "%s not forwarded" % p, new.lineno,
+                              "%s.__init__ takes %r, but new() does not feed it back to `self.__class__(...)`: the copy is "
+                              "built with the default instead of this plan's value, so plan.new() is not a copy of plan" % (
+                                  cls.name, p), instance=inst)
+        for p, attr in sorted(fed.items()):
+            inst = "%s:%s %s=self.%s" % (PLANS, fq, p, attr)
+            if p not in params:
+                chk.violation("ctor-roundtrip", PLANS, fq, "%s=self.%s" % (p, attr), lines[p],
+                              "new() passes %r, which is not a constructor parameter of %s" % (p, cls.name), instance=inst)
+                continue
+            bad = []
+            assigns = _init_attr_assignments(prog, mod, cls, r_init[1], init, attr)
+            for n, v, rename in assigns:
+                if v is None:
+                    bad.append(n)
+                    continue
+                while isinstance(v, ast.Call) and pf.call_name(v) in WRAP and len(v.args) == 1:
+                    v = v.args[0]
+                if not (isinstance(v, ast.Name) and rename.get(v.id, v.id) == p):
+                    bad.append(n)
+            if not assigns:
+                # a class-level default or an attribute set elsewhere: not decided rather than an error
+                chk.ok("ctor-roundtrip", inst + " (attribute not assigned in __init__: not decided)", nontrivial=False)
+                chk.note("ctor-roundtrip", "%s:%s.__init__" % (PLANS, cls.name),
+                         "self.%s, fed back by new() as %r, is not assigned in __init__ or its direct helpers" % (attr, p))
+                continue
+            if bad:
+                b_ = bad[0]
+                chk.violation("ctor-roundtrip", PLANS, fq, "%s=self.%s" % (p, attr), b_.lineno,
+                              "new() feeds self.%s back into the constructor parameter %r, but __init__ stores a "
+                              "transformed value (`%s`): the transformation is applied twice in the copy, so "
+                              "plan.new() is not a copy of plan" % (attr, p, pf.src(b_)), instance=inst)
+            else:
+                chk.ok("ctor-roundtrip", inst)
+    chk.count("concrete NLDF plan classes whose new() is checked against their own constructor", len(classes))
+
+
+# ----------------------------------------------------------------------------
+# round 14: plan-init, out-shared, attr-init
+# ----------------------------------------------------------------------------
+def _module_fn_resolver(tree, rel):
+    def resolve(call):
+        f = call.func
+        if isinstance(f, ast.Name) and f.id.startswith("_"):
+            try:
+                return ks.locate(tree, rel, f.id)[1], list(call.args)
+            except core.AnalysisError:
+                return None
+        return None
+    return resolve
+
+
+def rule_plan_init(chk):
+    """Every integrator / force driver that reaches `ni.eval_xc_cider` first calls
+    `ni.initialize_feature_generators(mol, grids, <its own nspin>)` unconditionally: the plans (sl_plan, nldfgen, ..)
+    live on the integrator object, so a driver that skips the call evaluates with whatever the previous call left."""
+    from sa import hinline
+    for rel, name in BATCH_FUNCS:
+        fn0 = ks.locate(chk.tree, rel, name)[1]
+        fn = hinline.inline_helpers(fn0, _module_fn_resolver(chk.tree, rel), 2)
+        evals = [c for c in ast.walk(fn) if isinstance(c, ast.Call) and isinstance(c.func, ast.Attribute)
+                 and c.func.attr == "eval_xc_cider"]
+        if not evals:
+            raise core.AnalysisError("%s:%s no longer calls eval_xc_cider" % (rel, name))
+        recv = pf.src(evals[0].func.value)
+        first = min(c.lineno for c in evals)
+        inst = "%s:%s initialises the feature plans of %s before eval_xc_cider" % (rel, name, recv)
+        init = None
+        for i, st in enumerate(fn.body):
+            if any(x in evals for x in ast.walk(st)) or (isinstance(st, ast.FunctionDef) and False):
+                break
+            if isinstance(st, ast.Expr) and isinstance(st.value, ast.Call) and isinstance(st.value.func, ast.Attribute) \
+                    and st.value.func.attr == "initialize_feature_generators" and pf.src(st.value.func.value) == recv:
+                init = st.value
+                break
+        if init is None:
+            cond = [c for c in ast.walk(fn) if isinstance(c, ast.Call) and isinstance(c.func, ast.Attribute)
+                    and c.func.attr == "initialize_feature_generators"]
+            if cond:
+                raise core.AnalysisError("%s:%s calls initialize_feature_generators, but not as an unconditional statement "
+                                         "of the function body before eval_xc_cider: not decided" % (rel, name))
+            chk.violation("plan-init", rel, name, "%s.initialize_feature_generators before eval_xc_cider" % recv, first,
+                          "%s calls %s.eval_xc_cider without calling %s.initialize_feature_generators(mol, grids, nspin) "
+                          "first, as every sibling driver does: it evaluates with the plans (sl_plan, nldfgen, ...) the "
+                          "PREVIOUS call on the same integrator left behind (e.g. the spin-polarised plans after nr_uks), "
+                          "so its result depends on the call history" % (name, recv, recv), instance=inst)
             continue
-        if bad:
-            b = bad[0]
-            chk.violation("ctor-roundtrip", PLANS, "NLDFAuxiliaryPlan.new", "%s=self.%s" % (p, attr), b.lineno,
-                          "new() feeds self.%s back into the constructor parameter %r, but __init__ stores a "
-                          "transformed value (`%s`): the transformation is applied twice in the copy, so "
-                          "plan.new() is not a copy of plan" % (attr, p, pf.src(b)), instance=inst)
+        want = 2 if ("uks" in name or rel == UKSG) else 1
+        a = init.args[2] if len(init.args) > 2 else next((k.value for k in init.keywords if k.arg == "nspin"), None)
+        if isinstance(a, ast.Constant) and a.value != want:
+            chk.violation("plan-init", rel, name, "nspin of initialize_feature_generators", init.lineno,
+                          "the %s driver initialises the feature plans with nspin=%r instead of %d" % (
+                              "spin-polarised" if want == 2 else "spin-restricted", a.value, want), instance=inst)
+        elif isinstance(a, ast.Constant):
+            chk.ok("plan-init", inst)
         else:
-            chk.ok("ctor-roundtrip", inst)
-    for p in params:
-        if p not in fed and p not in entries:
-            chk.note("ctor-roundtrip", "%s:NLDFAuxiliaryPlan.new" % PLANS,
-                     "constructor parameter %r is not forwarded by new(): the copy gets the default" % p)
-    # subclasses with extra constructor parameters
-    for m, c in prog.subclasses("NLDFAuxiliaryPlan"):
-        if c is cls:
+            chk.ok("plan-init", inst + " (nspin not a literal: value not decided)", nontrivial=False)
+
+
+OUT_SHARED_DIRS = ("ciderpress/pyscf/", "ciderpress/dft/")
+
+
+def rule_out_shared(chk):
+    """Two results produced into the same buffer (`a = f(.., out=B)` ... `b = g(.., out=B)`) cannot both be live: the
+    second call overwrites the first result.  Violation when the first result is still read after the second call."""
+    nfun = 0
+    rels = list(chk.tree.glob("ciderpress/pyscf/*.py")) + list(chk.tree.glob("ciderpress/dft/*.py"))
+    for rel in sorted(rels):
+        mod = chk.tree.py(rel)
+        for fn in ast.walk(mod):
+            if not isinstance(fn, ast.FunctionDef):
+                continue
+            prods = []
+            for n in pf.walk_no_nested(fn):
+                if isinstance(n, ast.Assign) and len(n.targets) == 1 and isinstance(n.targets[0], ast.Name) \
+                        and isinstance(n.value, ast.Call):
+                    for k in n.value.keywords:
+                        if k.arg == "out" and isinstance(k.value, ast.Name):
+                            prods.append((n, n.targets[0].id, k.value.id))
+            if len(prods) < 2:
+                continue
+            nfun += 1
+            prods.sort(key=lambda x: x[0].lineno)
+            stores = [(x.lineno, x.id) for x in pf.walk_no_nested(fn) if isinstance(x, ast.Name) and isinstance(x.ctx, ast.Store)]
+            loads = [(x.lineno, x.id) for x in pf.walk_no_nested(fn) if isinstance(x, ast.Name) and isinstance(x.ctx, ast.Load)]
+            bad = None
+            for i, (n1, t1, b1) in enumerate(prods):
+                for n2, t2, b2 in prods[i + 1:]:
+                    if b1 != b2 or t1 == t2 or t1 == b1 or t2 == b1:
+                        continue
+                    end2 = getattr(n2, "end_lineno", n2.lineno)
+                    if any(n1.lineno < ln <= n2.lineno and nm == b1 for ln, nm in stores):
+                        continue  # the buffer name was re-bound in between
+                    if pf.parent(n1) is not pf.parent(n2):
+                        continue  # different branches / blocks: not decided here
+                    redef = min([ln for ln, nm in stores if nm == t1 and ln > end2] or [10 ** 9])
+                    if any(end2 < ln < redef and nm == t1 for ln, nm in loads):
+                        bad = (n1, t1, n2, t2, b1)
+                        break
+                if bad:
+                    break
+            inst = "%s:%s results produced into one out= buffer are not live together" % (rel, pf.qualname(fn))
+            if bad:
+                n1, t1, n2, t2, b = bad
+                chk.violation("out-shared", rel, pf.qualname(fn), "%s and %s share out=%s" % (t1, t2, b), n2.lineno,
+                              "`%s` and `%s` are both produced into the buffer `%s`; the second call overwrites the memory "
+                              "of `%s`, which is still read afterwards: whenever the caller passes a buffer, `%s` silently "
+                              "holds the values of `%s`" % (pf.src(n1)[:70], pf.src(n2)[:70], b, t1, t1, t2), instance=inst)
+            else:
+                chk.ok("out-shared", inst)
+    chk.count("functions with two or more out=<name> producers", nfun)
+
+
+def rule_attr_init(chk):
+    """An attribute of the integrator that a method other than __init__ assigns (build(), initialize_...) and another
+    method reads must also be created by the constructor chain: otherwise the reading method fails (or sees another
+    object's class-level value) when it is the first entry point called on a fresh object."""
+    prog = pf.Program(chk.tree, [NUMINT])
+    mod = prog.module(NUMINT)
+    n = 0
+    for cname, cls in sorted(mod.classes.items()):
+        mro = prog.mro(mod, cls)
+        if "CiderNumInt" not in [c.name for _, c in mro]:
             continue
-        ini = pf.methods(c).get("__init__")
-        if ini is None:
-            continue
-        for a in ini.args.args[1:]:
-            if a.arg not in params:
-                chk.note("ctor-roundtrip", "%s:%s.__init__" % (PLANS, c.name),
-                         "parameter %r of the subclass is not forwarded by the inherited new()" % a.arg)
+        meths, classattrs = {}, set()
+        for m, c in mro:
+            classattrs |= set(pf.class_attrs(c))
+            for name, f in pf.methods(c).items():
+                meths.setdefault(name, []).append(f)
+        classattrs |= set(meths)
+        # constructor chain: every __init__ in the MRO plus the self-methods they call (two levels)
+        chain = list(meths.get("__init__", []))
+        for _ in range(2):
+            for f in list(chain):
+                for c_ in ast.walk(f):
+                    if isinstance(c_, ast.Call) and isinstance(c_.func, ast.Attribute) and pf.is_self_attr(c_.func):
+                        for h in meths.get(c_.func.attr, [])[:1]:
+                            if h not in chain:
+                                chain.append(h)
+        in_init = {x.attr for f in chain for x in ast.walk(f) if pf.is_self_attr(x) and isinstance(x.ctx, ast.Store)}
+        other, reads = {}, {}
+        for name, fs in meths.items():
+            f = fs[0]
+            if f in chain:
+                continue
+            for x in ast.walk(f):
+                if pf.is_self_attr(x):
+                    (other if isinstance(x.ctx, ast.Store) else reads).setdefault(x.attr, {}).setdefault(name, x)
+        for attr in sorted(other):
+            readers = sorted(set(reads.get(attr, {})) - set(other[attr]))
+            if not readers:
+                continue
+            n += 1
+            inst = "%s:%s.%s is created by the constructor chain" % (NUMINT, cname, attr)
+            if attr in in_init or attr in classattrs:
+                chk.ok("attr-init", inst)
+            else:
+                r = reads[attr][readers[0]]
+                chk.violation("attr-init", NUMINT, cname, "self.%s set only in %s" % (attr, ", ".join(sorted(other[attr]))),
+                              r.lineno,
+                              "self.%s is assigned only in %s, not in __init__ (or the methods it calls), but %s read%s it: "
+                              "on an object on which %s has not run yet the read fails with AttributeError" % (
+                                  attr, ", ".join(sorted(other[attr])), ", ".join(readers[:4]),
+                                  "s" if len(readers) == 1 else "", " / ".join(sorted(other[attr]))), instance=inst)
+    if n == 0:
+        raise core.AnalysisError("attr-init: no attribute of the CiderNumInt classes is assigned outside __init__ and read "
+                                 "elsewhere: the rule would pass vacuously")
 
 
 # ----------------------------------------------------------------------------
@@ -2064,6 +2321,9 @@ def _analyse_rules(chk):
     chk.rule("cache-mutate", "intermediates saved by one method for a later one are not updated in place by their readers")
     chk.rule("cache-alias", "values stored into keyed per-object state do not alias a reusable instance buffer")
     chk.rule("kernel-input-write", "hidden-write restricted to ciderpress/models (kernel inputs X, Y are not mutated)")
+    chk.rule("plan-init", "every driver initialises the integrator's feature plans with its own nspin before eval_xc_cider")
+    chk.rule("out-shared", "two results produced into the same out= buffer are not both live")
+    chk.rule("attr-init", "integrator attributes set by later methods are created in __init__")
     chk.rule("memo-invalidate", "methods that change the inputs of a memoised attribute reset the memo")
     bfs = chk.guard(rule_batch_index)
     if bfs is not None:
@@ -2074,6 +2334,12 @@ def _analyse_rules(chk):
     chk.guard(rule_ctor_roundtrip)
     chk.guard(rule_chunk_loop)
     chk.guard(rule_memo)
+    chk.guard(rule_plan_init)
+    chk.guard(rule_out_shared)
+    chk.guard(rule_attr_init)
+    chk.floor("plan-init", 8, "12 integrators / force drivers")
+    chk.floor("out-shared", 2, "functions producing several results with out=")
+    chk.floor("attr-init", 3, "integrator attributes set by build / initialize_feature_generators")
     chk.floor("batch-index", 55, "130 classified batch-axis indexes in 12 functions on the pinned tree")
     chk.floor("cache-typestate", 8, "11 consume sites + spin forwarding in the generator")
     chk.floor("hidden-write", 350, "non-buffer parameters of the dft/pyscf API entry points incl. constructors")
@@ -2084,7 +2350,7 @@ def _analyse_rules(chk):
     chk.floor("cache-alias", 8, "8 keyed stores + the per-object scratch buffers")
     chk.floor("reinit", 8, "3 classes x (inputs compared, recorded, sibling preparation)")
     chk.floor("reinit-reset", 3, "2 kept generators x 2 hooks + 2 wrapper hooks")
-    chk.floor("ctor-roundtrip", 5, "10 keywords fed back by NLDFAuxiliaryPlan.new")
+    chk.floor("ctor-roundtrip", 30, "every constructor parameter of the 3 NLDF plan classes, forwarded and fed back raw")
     chk.floor("chunk-loop", 1, "KernelEvaluator.__call__")
     chk.assumptions += [
         "ndarray element stores copy data (A[i] = B does not make A alias B); python list/dict literals keep references",
@@ -2158,6 +2424,22 @@ def mutants(tree):
         Mutant("mol no longer recorded by the mixin", NUMINT,
                "            self.sdmxgen = self.sdmx_init.initialize_sdmx_generator(mol, nspin)\n        self.mol = mol\n",
                "            self.sdmxgen = self.sdmx_init.initialize_sdmx_generator(mol, nspin)\n", expect="reinit"),
+        Mutant("UKS force drivers reuse the plans of the previous call", UKSG,
+               "    ni.initialize_feature_generators(mol, grids, 2)\n", "", count=1, expect="plan-init"),
+        Mutant("RKS integrator initialises spin-polarised plans", NUMINT,
+               "    ni.initialize_feature_generators(mol, grids, 1)\n", "    ni.initialize_feature_generators(mol, grids, 2)\n",
+               count=1, expect="plan-init"),
+        Mutant("plain and convolved orbitals share the work buffer", "ciderpress/pyscf/sdmx_slow.py",
+               "cutoff=cutoff, out=aobuf)\n        n0 = self.plan.num_l0_feat", "cutoff=cutoff, out=buf)\n        n0 = self.plan.num_l0_feat",
+               expect="out-shared"),
+        Mutant("integrator plan slot created only by build()", NUMINT,
+               "        self.nldfgen = None\n        self.sl_plan = None\n        self.fl_plan = None\n        # nr_rks",
+               "        self.nldfgen = None\n        self.fl_plan = None\n        # nr_rks", expect="attr-init"),
+        Mutant("spline plan copy loses its spline size", PLANS,
+               '        kwargs["spline_size"] = self._spline_size_input\n', "", expect="ctor-roundtrip"),
+        Mutant("plan copy loses the smooth exponent cutoff flag", PLANS,
+               "            use_smooth_expnt_cutoff=self._use_smooth_expnt_cutoff,\n        )\n\n    def new(",
+               "        )\n\n    def new(", expect="ctor-roundtrip"),
         Mutant("expcut stored transformed", PLANS, "        self.expcut = expcut\n", "        self.expcut = expcut / nspin\n",
                expect="ctor-roundtrip"),
         # --- round 2 -----------------------------------------------------------------------------------
